@@ -161,3 +161,12 @@ def validate_trace(name, c, events, timeout=1200):
     verdicts = [p for p in prints if isinstance(p, dict) and "verdict" in p]
     done = any(isinstance(p, dict) and "done" in p for p in prints)
     return res, verdicts, done
+
+
+def check_taken(chk, res, required, name):
+    """Vacuity guard on the number of times an action was *taken* (event_reinit usually leads to an already known
+    abstract state, so the distinct-state count vkit.Check.check_coverage looks at is legitimately 0 for it)."""
+    missing = [a for a in required if res.coverage.get(a, (0, 0))[1] == 0]
+    if missing:
+        raise vkit.InfraError("vacuous model run %s: actions never taken: %s" % (name, missing))
+    chk.cov.setdefault("action_coverage", {}).update({name + ":" + a: res.coverage[a][1] for a in required})
